@@ -77,7 +77,7 @@ def small_vals(rnd, n):
     return [rnd.choice([-2, -1, 1, 2, F(1, 2), F(-1, 2), 0, 3]) for _ in range(n)]
 
 
-def training_case(rnd, layers, in_dims, out_dims, iters, lr, cost="mse", batches=None, ownership=True, rebuild=False):
+def training_case(rnd, layers, in_dims, out_dims, iters, lr, cost="mse", batches=None, ownership=True, rebuild=False, freeze=None):
     """layers: list of step dicts (dense_new / conv_new) with layer ids; runs forward/backward/update"""
     steps = [RESET] + layers
     lids = [l["layer"] for l in layers]
@@ -95,6 +95,10 @@ def training_case(rnd, layers, in_dims, out_dims, iters, lr, cost="mse", batches
             for k, p in enumerate(params):
                 steps.append({"op": "clone", "args": [p], "res": h + 10 + k})
                 olds.append(h + 10 + k)
+        if freeze is not None and it == freeze[1]:
+            steps.append({"op": "stop", "args": [freeze[0]]})        # a frozen parameter: no gradient, no update
+        if freeze is not None and it == freeze[1] + 1:
+            steps.append({"op": "start", "args": [freeze[0]]})
         steps.append({"op": "m_forward", "args": [x], "res": out})
         if prev is not None and ownership:
             # the model moved on: nothing of the previous iteration may still hold its input or old parameters
@@ -126,8 +130,10 @@ def c14_cases(tier, seed):
         # element count of the output (batch x out) must be a power of two for the exact MSE
         batches = rnd.choice([[[]], [[1]], [[2]], [[2], [1], []], [[4], [2]]])
         batches = [b for b in batches if prod(b + [sizes[-1]]) in (1, 2, 4, 8)] or [[]]
+        params = [p for l in layers for p in l["ph"]]
+        freeze = (rnd.choice(params), rnd.choice([0, 1])) if rnd.random() < 0.4 else None
         cases.append(training_case(rnd, layers, [sizes[0]], [sizes[-1]], rnd.choice([1, 2, 3]), rnd.choice([F(1, 2), 1, F(1, 4)]),
-                                   batches=batches, rebuild=rnd.random() < 0.25))
+                                   batches=batches, rebuild=rnd.random() < 0.25, freeze=freeze))
     # conv + dense stack
     for _ in range(60 if tier == "thorough" else 12):
         cnt, fr, fc = rnd.choice([1, 2]), rnd.choice([1, 2]), rnd.choice([1, 2])
